@@ -49,7 +49,7 @@ HasNames(e) == Defs(e) # {} \/ DefsL(e) # {} \/ HasOvr(e)
 \* ---- can match without consuming (calls are never considered nullable: the proviso of C16)
 RECURSIVE Nullable(_)
 RECURSIVE NullSeq(_, _)
-Nullable(e) == CASE e.op \in {"opt", "star", "void", "cut", "and", "not", "const", "oconst", "constbad", "emptyclosure", "eof", "fail"} -> TRUE
+Nullable(e) == CASE e.op \in {"opt", "star", "void", "cut", "and", "not", "const", "oconst", "constbad", "emptyclosure", "eof", "eol", "fail"} -> TRUE
                  [] e.op = "pat" -> e.min = 0
                  [] e.op = "opat" -> e.nul
                  [] e.op = "join" -> ~e.plus
